@@ -56,6 +56,7 @@ pub open spec fn chain_over(d: Seq<SourceRange>, t: Seq<SourceRange>) -> bool {
 /// * without EmmyLua doc support: token by token, exactly once, in order  (d == t);
 /// * with doc support, comment groups are re-lexed by the doc parser, so the emitted ranges are a
 ///   re-tokenisation: they tile exactly the bytes of `t`, in order.
+#[verifier::opaque]
 pub open spec fn emits(d: Seq<SourceRange>, t: Seq<SourceRange>, doc: bool) -> bool {
     if doc { chain_over(d, t) } else { d == t }
 }
@@ -245,6 +246,7 @@ pub proof fn lemma_emits_cat(d1: Seq<SourceRange>, t1: Seq<SourceRange>, d2: Seq
     ensures
         emits(d1 + d2, t1 + t2, doc),
 {
+    reveal(emits);
     let t = t1 + t2;
     if doc {
         if t1.len() == 0 {
@@ -270,6 +272,18 @@ pub proof fn lemma_emits_self(t: Seq<SourceRange>, doc: bool)
     ensures
         emits(t, t, doc),
 {
+    reveal(emits);
+}
+
+pub proof fn lemma_emits_nil(d: Seq<SourceRange>, t: Seq<SourceRange>, doc: bool)
+    requires
+        d.len() == 0,
+        t.len() == 0,
+    ensures
+        emits(d, t, doc),
+{
+    reveal(emits);
+    assert(d =~= t);
 }
 
 /// one more token emitted directly
@@ -344,6 +358,7 @@ pub proof fn lemma_inv_tiles(p: &LuaParser)
     ensures
         chain(eaten(p.events@), 0, start_of(p.tokens@, p.token_index as int)),
 {
+    reveal(emits);
     let t = p.tokens@;
     let r = ranges(t);
     let k = p.token_index as int;
